@@ -1,7 +1,6 @@
 package main
 
 import (
-	"verif/mc/refdoc"
 	"verif/mc/sphere"
 	"strconv"
 	"fmt"
@@ -130,14 +129,6 @@ func c08One(text string, base, os optSet, extra any, emit func(class string, c r
 		// representation options: the statement fixes JSON and the predicate
 		// answers (a Rect deliberately counts 2 points), so the count is dropped
 		a1, a2 = dropCount(a1), dropCount(a2)
-	}
-	if a1 != a2 {
-		// a document with a number outside the float64 range (an infinite
-		// radius or ordinate) has no geometry any property defines: there only
-		// rectangle, emptiness, validity and count are compared
-		if jv, e := refdoc.ParseJSON(text); e == nil && jv.HasNonFinite() {
-			a1, a2 = a1[:strings.IndexByte(a1, '|')+1], a2[:strings.IndexByte(a2, '|')+1]
-		}
 	}
 	if a1 != a2 {
 		emit("answers-differ", mk(), a1, a2)
@@ -334,6 +325,23 @@ func runC08(r *rt.Run) {
 	// circles, all around (the strip between the disc and the rectangle of
 	// its polygon approximation is where a child-index search by rectangle
 	// and a child-by-child loop can differ)
+	// ordinates that overflow to +-Inf (accepted unless RequireValid): the
+	// options still must not change any answer
+	over := overflowDocs()
+	r.Bounds["overflow_documents"] = len(over)
+	r.ParFor(len(over), func(i int, w *rt.Worker) {
+		w.States++
+		w.Nontriv++
+		for d := 0; d < 2; d++ {
+			for _, os := range near[d] {
+				w.Evals++
+				c08One(over[i], bases[d], os, nil, func(class string, c rt.Case, exp, got string) {
+					c.Doc = fmt.Sprintf("overflow#%d", i)
+					w.Fail(class+"-overflow", func() (rt.Case, string, string) { return c, trunc(exp), trunc(got) })
+				})
+			}
+		}
+	})
 	strip := circleStripDocs()
 	r.Bounds["circle_rim_documents"] = len(strip)
 	r.ParFor(len(strip), func(i int, w *rt.Worker) {
@@ -351,6 +359,44 @@ func runC08(r *rt.Run) {
 	})
 	r.Sample(rt.Case{Kind: "doc", Op: "options", Doc: seeds[len(seeds)-1], Cfg: full[0][777].Name, X: map[string]string{"base": bases[0].Name}})
 	r.Sample(rt.Case{Kind: "doc", Op: "options", Doc: `{"type":"MultiPoint","coordinates":[[200,0]]}`, Cfg: near[0][20].Name, X: map[string]string{"base": bases[0].Name}})
+}
+
+// overflowDocs: long lines and rings (past the node-split sizes of both index
+// kinds) with ordinates that overflow to +Inf and to -Inf (1e999, -1e999),
+// on one axis, on both, at the ends and in the middle.
+func overflowDocs() []string {
+	var out []string
+	for _, n := range []int{20, 40, 70} {
+		for _, where := range [][2]int{{n / 3, 2 * n / 3}, {0, n - 1}, {1, 2}} {
+			for axis := 0; axis < 3; axis++ {
+				for _, signs := range [][2]string{{"1e999", "-1e999"}, {"1e999", "1e999"}, {"-1e999", "-1e999"}} {
+					var ps []string
+					for i := 0; i < n; i++ {
+						x, y := strconv.Itoa(i%10), strconv.Itoa(i/10)
+						if i%2 == 1 {
+							y += ".5"
+						}
+						for k, w := range where {
+							if i == w {
+								if axis == 0 || axis == 2 {
+									x = signs[k]
+								}
+								if axis == 1 || axis == 2 {
+									y = signs[k]
+								}
+							}
+						}
+						ps = append(ps, "["+x+","+y+"]")
+					}
+					out = append(out, `{"type":"LineString","coordinates":[`+strings.Join(ps, ",")+`]}`)
+					if where[0] != 0 {
+						out = append(out, `{"type":"Polygon","coordinates":[[`+strings.Join(ps, ",")+`,`+ps[0]+`]]}`)
+					}
+				}
+			}
+		}
+	}
+	return out
 }
 
 func circleStripDocs() []string {
